@@ -432,6 +432,33 @@ func run(cfg lib.Cfg) error {
 			}
 			judge(sc, "corpus-real-client-dependent-short-load", true, nil)
 		}
+		// the reference sits on a COMPONENT of a tuple input: Order((address maker, uint256 amt) o)
+		// with filter_ref {integration, column} on component maker (the documented form, without
+		// a table) or with a user-supplied table as well.  dig builds its columns from
+		// Event.Selected(), which descends into components, and evaluates their filters: the
+		// dependent must wait for r-one exactly like one whose reference sits on a top-level
+		// input.  r-one ahead / behind / not started when the dependent takes its first steps.
+		for v, c := range []struct {
+			refSteps int
+			table    string
+		}{
+			{3, ""},   // ahead
+			{1, ""},   // behind: the dependent must stop at r-one's position
+			{0, ""},   // not started: the dependent does nothing
+			{1, "r1"}, // behind, the user also wrote the table name
+			{0, "r1"},
+		} {
+			d := ts.IGSpec{Name: "a-dep", Shape: "deptup", Table: "d1", Ref: "r-one", RefTable: c.table, RefLo: 1, Hdr: v%2 == 0, Sources: src(1)}
+			g := finishGraph([]ts.IGSpec{d, created("r-one", "r1")})
+			sc := mk(fmt.Sprintf("corpus-reference-on-tuple-component-%d", v), g, 8, 2, 1, uint64(95+v))
+			sc.Gen.Orders = true
+			sc.Acts = append(sc.Acts, ts.Steps(2, c.refSteps)...)
+			sc.Acts = append(sc.Acts, ts.Steps(1, 3)...)
+			for i := 0; i < 6; i++ {
+				sc.Acts = append(sc.Acts, ts.Act{Do: "step", Tid: 1}, ts.Act{Do: "step", Tid: 2})
+			}
+			judge(sc, "corpus-reference-on-tuple-component", true, nil)
+		}
 		// the smallest history of this kind: a-ref never runs, c-ref records two batches,
 		// each dependent takes one step: b-dep must do nothing, d-dep may follow c-ref
 		{
